@@ -19,7 +19,9 @@ RULE = ("complete enumeration of single-mutation requests (each followed by a ve
         "nesting, huge integers), oversized well-typed requests, hostile content; oracle per "
         "line = exactly one JSON-object line with int errorcode, no shutdown signal, next line "
         "served (handler tier; TCP tier over real sockets); non-trivial = line that decodes "
-        "and parses as JSON and is not an unmodified template; distinct by line bytes")
+        "and parses as JSON and is not an unmodified template; distinct by line bytes; plus "
+        "clients that send less than a line or hang up (close / reset) before the reply is "
+        "written, followed by a well-behaved one")
 ASSUMPTIONS = [
     "the device keeps to its protocol: simulated device of vlib/device.py without fault plan",
     "server shutdown is observed as RequestHandlerError/RequestHandlerShutdown from "
@@ -377,8 +379,98 @@ def run_tcp(c):
     return Out(labels, True)
 
 
+# ---------------------------------------------------------------- clients that do not wait
+
+RUDE = ["connect-and-close", "line-without-newline", "partial-then-reset", "request-then-reset",
+        "request-then-close-unread", "newline-only-then-reset", "half-line-then-silence"]
+
+
+def rude_cases(tier, seed):
+    import itertools
+    out = []
+    for v1 in (False, True):
+        for a in RUDE:
+            out.append({"v1": v1, "acts": [a]})
+        for a, b in itertools.permutations(RUDE, 2):
+            out.append({"v1": v1, "acts": [a, b]})
+    return out
+
+
+def run_rude(c):
+    """Clients that send less than a line, or hang up (politely or with a reset) before the reply
+    is written: whatever they get, the manager goes on accepting further connections and
+    answers the next well-behaved client."""
+    import struct
+    w = mw.default_world()
+    # the device takes its time, so that the reply is written after the client is gone
+    w.delay = lambda dongle, apdu: time.sleep(0.03)
+    p = mw.stack(w, v1=c["v1"], init=False)
+    srv, t, result, port = _free_server(p)
+    req = json.dumps((T1 if c["v1"] else T5)["getPubKey"]).encode()
+    labels = ["rude-clients"]
+
+    def reset(s):
+        s.setsockopt(socket.SOL_SOCKET, socket.SO_LINGER, struct.pack("ii", 1, 0))
+        s.close()
+    try:
+        for act in c["acts"]:
+            s = socket.create_connection(("127.0.0.1", port), timeout=20)
+            if act == "connect-and-close":
+                s.close()
+            elif act == "line-without-newline":
+                s.sendall(req)
+                s.shutdown(socket.SHUT_WR)
+                data = b""
+                while True:
+                    d_ = s.recv(65536)
+                    if not d_:
+                        break
+                    data += d_
+                s.close()
+                if mw.parse_reply(data) is None:
+                    raise Violation("bad-reply-to-unterminated-line", repr(data[:200]))
+            elif act == "partial-then-reset":
+                s.sendall(req[:len(req) // 2])
+                reset(s)
+            elif act == "request-then-reset":
+                s.sendall(req + b"\n")
+                reset(s)
+            elif act == "request-then-close-unread":
+                s.sendall(req + b"\n")
+                s.close()
+            elif act == "newline-only-then-reset":
+                s.sendall(b"\n")
+                reset(s)
+            elif act == "half-line-then-silence":
+                # says half a line, then nothing, and leaves after a while
+                s.sendall(req[:10])
+                time.sleep(0.2)
+                s.close()
+            labels.append("rude:" + act)
+            time.sleep(0.05)
+        mw.check_sim(w)
+        try:
+            out = _talk(port, b'{"command":"version"}')
+        except (ConnectionError, socket.timeout, OSError) as e:
+            raise Violation("tcp-server-down", "after clients %s the manager no longer answers "
+                            "(%s); server thread: %r" % (c["acts"], e, result))
+        rep = mw.parse_reply(out)
+        if rep is None or rep["errorcode"] != 0:
+            raise Violation("tcp-followup", "after clients %s a version request was answered %r"
+                            % (c["acts"], out[:200]))
+        if not t.is_alive():
+            raise Violation("tcp-server-down", "server thread ended: %r" % (result,))
+    finally:
+        try:
+            srv.server.shutdown()
+        except Exception:
+            pass
+        t.join(timeout=5)
+    return Out(labels, True)
+
+
 REQUIRED_LABELS = {
-    t: ["v5", "v1", "kind:json", "kind:raw", "kind:nest", "kind:nest-in-req", "kind:digits",
+    t: ["rude-clients"] + ["rude:" + a for a in RUDE] + ["v5", "v1", "kind:json", "kind:raw", "kind:nest", "kind:nest-in-req", "kind:digits",
         "kind:oversize:block-advance", "kind:oversize:block-ancestor",
         "kind:oversize:brothers-many", "kind:oversize:witness", "kind:oversize:proof-nodes",
         "kind:oversize:brother-big", "kind:blockmut", "unparseable", "code:0", "code:-901", "code:-902",
@@ -425,6 +517,9 @@ def stages(tier):
                  budget_s={"quick": 100, "thorough": 900}),
         HypStage("tcp", lambda t: cases(t), run_tcp, {"quick": 12, "thorough": 200},
                  budget_s={"quick": 60, "thorough": 600}),
+        EnumStage("rude-clients", rude_cases, run_rude,
+                  exhaustive={"quick": True, "thorough": True},
+                  budget_s={"quick": 60, "thorough": 120}),
         FuzzStage("fuzz", "C03", [("raw", False), ("raw", True), ("hyp", False), ("raw", True)],
                   {"quick": 4000, "thorough": 50000}, run_case, fuzz_to_case, fuzz_seeds,
                   budget_s={"quick": 45, "thorough": 600}, max_len=4096,
